@@ -17,6 +17,7 @@ from types import SimpleNamespace
 
 import OpenPinch.analysis.capital_cost_and_area_targeting as ca
 import OpenPinch.utils.costing as costing
+import OpenPinch.analysis.direct_integration_entry as di
 from pvc.engine import Obligation
 from pvc.npshim import NP as npx
 from pvc.sym import And, Implies, Not, Or
@@ -195,6 +196,51 @@ def ob_units_regions(h):
     h.check("units_is_members_minus_one_per_region", got == len(regions) * (2 + 2 + 1 + 1) - len(regions))
 
 
+AREA_PROBLEMS = {
+    "four_streams_two_pinch_regions": [("H1", 250.0, 40.0, 3150.0, 0.5), ("H2", 200.0, 80.0, 3000.0, 2.0), ("C1", 20.0, 180.0, 3200.0, 1.0), ("C2", 140.0, 230.0, 2700.0, 0.2)],
+    "two_streams": [("H1", 250.0, 120.0, 1300.0, 1.0), ("C1", 40.0, 200.0, 1600.0, 0.5)],
+    "threshold_hot_only_utility": [("H1", 150.0, 60.0, 900.0, 1.0), ("C1", 20.0, 120.0, 2000.0, 1.0)],
+}
+COSTS = dict(FIXED_COST=4000.0, VARIABLE_COST=700.0, COST_EXP=0.8, DISCOUNT_RATE=0.1, SERV_LIFE=6)
+
+
+def ob_area_pipeline(h):
+    """PIPELINE (call-site contract of compute_direct_integration_targets, evaluated on the records it produces): whenever area targeting is switched
+    on, every record that carries an area target has a finite positive area, at least one unit, the capital cost N(a + b(A/N)^c) of exactly those
+    two numbers and the annuity of that cost -- for EVERY setting of the reporting options (DO_BALANCED_CC only decides whether balanced curves are
+    reported; the targets may not depend on it)."""
+    import math
+    import OpenPinch.main as main
+    from pvc.engine import native
+    prob = h.choice("problem", list(AREA_PROBLEMS))
+    with native():
+        seen = {}
+        for bal in (True, False):
+            req = {"streams": [dict(zone="Z", name=n, t_supply=a, t_target=b, heat_flow=q, dt_cont=5.0, htc=k) for n, a, b, q, k in AREA_PROBLEMS[prob]],
+                   "utilities": [], "options": dict(COSTS, DO_AREA_TARGETING=True, DO_BALANCED_CC=bal)}
+            _, mz = main.pinch_analysis_service(req, is_return_full_results=True)
+            stack, recs = [mz], []
+            while stack:
+                z = stack.pop()
+                stack.extend(z.subzones.values())
+                recs += [(z.name, k, t) for k, t in z.targets.items() if hasattr(t, "Area target")]
+            h.check("area_targets_are_produced_when_switched_on", len(recs) >= 1, note=f"DO_BALANCED_CC={bal}")
+            for zn, k, t in recs:
+                A, N = float(getattr(t, "Area target")), float(getattr(t, "Units target"))
+                cap, ann = float(getattr(t, "Capital cost target")), float(getattr(t, "Annualised capital cost target"))
+                h.check("area_finite_and_positive", math.isfinite(A) and A > 0, note=f"{k} DO_BALANCED_CC={bal}: {A}")
+                h.check("at_least_one_unit", math.isfinite(N) and N >= 1 and N == int(N), note=f"{k} DO_BALANCED_CC={bal}: {N}")
+                if N >= 1 and A > 0:
+                    ref = N * (COSTS["FIXED_COST"] + COSTS["VARIABLE_COST"] * (A / N) ** COSTS["COST_EXP"])
+                    h.check("capital_cost_is_the_formula_of_the_reported_area_and_units", math.isfinite(cap) and abs(cap - ref) <= 1e-9 * ref, note=f"{k}: {cap} vs {ref}")
+                    i, n = COSTS["DISCOUNT_RATE"], COSTS["SERV_LIFE"]
+                    h.check("annualised_cost_is_the_annuity_of_the_capital_cost", abs(sum((ann / cap) / (1 + i) ** y for y in range(1, n + 1)) - 1.0) < 1e-9)
+                seen.setdefault((zn, k), []).append((A, N, cap))
+        for key, vals in seen.items():
+            h.check("targets_do_not_depend_on_the_reporting_option", len(vals) == 2 and vals[0][1] == vals[1][1] and abs(vals[0][0] - vals[1][0]) <= 1e-9 * max(1.0, vals[0][0])
+                    and abs(vals[0][2] - vals[1][2]) <= 1e-9 * max(1.0, vals[0][2]), note=f"{key}: {vals}")
+
+
 def _deps(module, names, prefix, why):
     """callee contracts this property's clauses are stated against, discharged here as well (same harness objects, other names)"""
     out = []
@@ -220,6 +266,9 @@ def _own_obligations():
         Obligation("C15.units.regions.b", ob_units_regions, kind="bounded", bound="balanced curves of 3..4 rows, all cells symbolic", functions=[ca.get_min_number_hx],
                    stubs=("_count_crossing", "_count_utility_range_container (recorders; their contracts are C15.units.crossing.b)"),
                    doc="UNITS: regions between consecutive meeting points; sum of members minus one per region"),
+        Obligation("C15.pipeline.b", ob_area_pipeline, kind="smallscope", bound=f"{len(AREA_PROBLEMS)} problems x balanced-curve reporting on / off, real service run natively (exhaustive)",
+                   functions=[di.compute_direct_integration_targets, ca.get_area_targets, ca.get_min_number_hx, ca.get_capital_cost_targets], max_paths=1000,
+                   doc="PIPELINE: area, units and cost records of the real service obey the cost definitions for every reporting option"),
         Obligation("C15.bcc.b", ob_bcc, kind="bounded", bound="tables of 2..3 rows, all cells symbolic", functions=[ca.get_balanced_CC], max_paths=100000),
     ]
 
